@@ -27,9 +27,10 @@ structure Doc where
   stamp : Str
   tree : Option JVal := none
 
-/-- Build the `Env` of an op from the world description and the oracle tables. -/
-def envOf (j : Json) : Except String (Jtp.Env Doc) := do
-  let worldA ← arr j "world"
+/-- Build the `Env` of an op from the world description and the oracle tables; `healed` = the same
+    servers after every fault has been taken away (a `@heal` step of the sequence). -/
+def envOf (j : Json) (healed : Bool := false) : Except String (Jtp.Env Doc) := do
+  let worldA ← arr j (if healed then "world_healed" else "world")
   let world ← worldA.toList.mapM fun r => do
     pure ((← str r "key"), (← str r "resp"), (← str r "fault"))
   let hosts ← strList j "hosts"
@@ -61,7 +62,14 @@ def envOf (j : Json) : Except String (Jtp.Env Doc) := do
     | .ok rec => match rec.getObjVal? k with | .ok (Json.str s) => s.toList | _ => []
     | _ => []
   let schemeOf (u : Str) : Str := fieldOf u "scheme"
-  let hostFaults : List Str := match j.getObjVal? "hostfaults" with
+  -- the listener a connection to the URL's host and port arrives at (an oracle of the harness:
+  -- name resolution, letter case, the https default port); older ops carry the host only
+  let reachOf (u : Str) : Str := match urltable.getObjVal? (String.ofList u) with
+    | .ok rec => match rec.getObjVal? "reach" with
+      | .ok (Json.str s) => s.toList
+      | _ => fieldOf u "host"
+    | _ => []
+  let hostFaults : List Str := if healed then [] else match j.getObjVal? "hostfaults" with
     | .ok (Json.arr a) => a.toList.filterMap fun hf =>
         match hf.getObjVal? "h" with
         | .ok v => (v.getNat?).toOption.bind fun i => hosts[i]?
@@ -70,7 +78,7 @@ def envOf (j : Json) : Except String (Jtp.Env Doc) := do
   pure { https := fun u => schemeOf u = "https".toList,
          serve := fun u =>
            -- the connection goes to the URL's host; the route is looked up by request target
-           let host := fieldOf u "host"
+           let host := reachOf u
            let uri := fieldOf u "uri"
            let pathOnly := uri.takeWhile (· != '?')
            if !hosts.contains host || hostFaults.contains host then none   -- dial / handshake fails
@@ -100,6 +108,20 @@ def fetchSeqOp (j : Json) : Except String Res := do
     | _ => []
   let impl := (j.getObjVal? "impl").toOption.getD Json.null
   let implRounds : List Json := match impl with | Json.arr a => a.toList | _ => []
+  let reach (u : Str) : Str := match urltable.getObjVal? (String.ofList u) with
+    | .ok rec => match rec.getObjVal? "reach" with
+      | .ok (Json.str s) => s.toList
+      | _ => field u "host"
+    | _ => []
+  let envHealed ← envOf j true
+  let mut env := env
+  -- tolerated types a step brought along (otherwise the op's)
+  let perTol : List (Option (List Str)) := match j.getObjVal? "tolerated_per" with
+    | .ok (Json.arr a) => a.toList.map fun v => match v with
+      | Json.arr xs => some (xs.toList.filterMap fun x => match x with | Json.str s => some s.toList | _ => none)
+      | _ => none
+    | _ => []
+  let mut step := 0
   let mut cache : Jtp.Cache Doc := { cap := cap }
   let mut out : Array Json := #[]
   let mut hops := 0
@@ -109,6 +131,12 @@ def fetchSeqOp (j : Json) : Except String Res := do
     | _ => false
   let mut transparent := true
   for (t, ir) in targets.zip implRounds do
+    let tol := ((perTol[step]?).getD none).getD tol
+    step := step + 1
+    if t == "@heal".toList then
+      env := envHealed
+      out := out.push (Json.mkObj [("healed", true)])
+      continue
     -- the cache key is link.String()
     let key := field t "str"
     if (urltable.getObjVal? (String.ofList t)).toOption == some Json.null then
@@ -122,7 +150,7 @@ def fetchSeqOp (j : Json) : Except String Res := do
       | .err => Json.mkObj [("err", true)]
     -- a failed dial / handshake never reaches the simulator's request log
     let reqs := (st.requests.filter fun u => (env.serve u).isSome).map fun u =>
-      Json.arr #[js (field u "host"), js (Jtp.request (field u "uri") (field u "host") accept)]
+      Json.arr #[js (reach u), js (Jtp.request (field u "uri") (field u "host") accept)]
     -- after a TCP reset the kernel may discard bytes the client had not read yet: an error is
     -- then also a correct outcome (never a different document)
     let implErr := match ir.getObjVal? "err" with | .ok _ => true | _ => false
@@ -151,7 +179,9 @@ def fetchSeqOp (j : Json) : Except String Res := do
       let lines := (String.ofList raw).splitOn "\r\n"
       lines.length == 5 && (lines[0]?.getD "").startsWith "GET " && (lines[0]?.getD "").endsWith " HTTP/1.0" &&
       (lines[1]?.getD "").startsWith "Host: " && (lines[2]?.getD "").startsWith "Accept: " &&
-      lines[3]? == some "" && lines[4]? == some ""
+      lines[3]? == some "" && lines[4]? == some "" &&
+      -- no stray line terminator inside a line either
+      lines.all fun l => !(l.toList.contains '\n' || l.toList.contains '\r')
   -- C05: every fetch returns within (connections + 1) · (dial timeout + deadline) plus slack
   let timeoutS := ((j.getObjVal? "timeout_s").toOption.bind (·.getNat?.toOption)).getD 0
   let msA : List Nat := match j.getObjVal? "ms" with
